@@ -71,7 +71,9 @@ def build_dataset(grid):
         coords[nm(d)] = (nm(d), np.arange(L) * 1.0)
     if grid.get("faces"):
         d, L = grid["faces"]["dim"], grid["faces"]["n"]
-        coords[nm(d)] = (nm(d), np.arange(L))
+        # the faces' labels are 0..n-1 in the records; the dataset may list them in another order (the table of
+        # connections speaks of PLACES along the face dimension; the labels of the input play no role)
+        coords[nm(d)] = (nm(d), np.arange(L)[::-1] if grid["faces"].get("labels") == "reversed" else np.arange(L))
     return xr.Dataset(coords=coords)
 
 
